@@ -8,6 +8,7 @@
    with consecutive sequence numbers, and the machine is back at its prompt only when that response is complete. *)
 From Coq Require Import List Arith NArith Lia Bool.
 From MM Require Import Lib.Bytes Model.Conn Model.Resp Proofs.RespProofs Proofs.C10Proofs Gen.FactsConn Gen.FactsPackets Gen.FactsControl Model.Packets Proofs.PacketProofs Proofs.C03Proofs Proofs.FuelProofs Proofs.DeferProofs Proofs.PipelineProofs.
+From MM Require Import Gen.FactsOutline.
 Import ListNotations.
 Open Scope N_scope.
 
@@ -27,6 +28,12 @@ Theorem c03_source_shape :
   connection_connection_init___ok = true /\ connection_connection_ok_ok = true /\ connection_connection_eof_ok = true /\
   packets_make_com_stmt_prepare_ok_ok = true /\ results_resultset_bool___ok = true /\ utils_seq_ok = true.
 Proof. repeat split; reflexivity. Qed.
+
+(* the modules this property rests on define the functions, classes, methods and class-level names they defined when the
+   model was transcribed - nothing added (an override, a new helper in the path), removed or renamed *)
+Theorem c03_module_outlines : translated_outline = true /\ outline_connection_ok = true /\ outline_packets_ok = true /\ outline_stream_ok = true /\ outline_results_ok = true.
+Proof. repeat split; reflexivity. Qed.
+
 
 Theorem c03_text_resultset : forall s sz items, has_raise items = false -> sz_coldef sz <> [] ->
   accepts (deprecate_eof s) RKQuery (plan_pkts (text_plan BATCH s sz items)) = true.
